@@ -180,8 +180,52 @@ def rule_r4(ctx):
         r.ob(f, "aio completed on every path")
 
 
+def rule_r5(ctx):
+    r = ctx.rule("C05.R5", "T2", "the subscription scan looks at every topic: inside the loop over ctx->topics in sub0_matches the "
+                 "only way out, other than the next iteration, is the match (return true); a topic that does not match never ends "
+                 "the scan", floor=2)
+    f = ctx.prog.need("sub0_matches", "pubsub0/sub.c")
+    hdr = None
+    for b in f.blocks.values():
+        c = f.cond(b.id) if b.term and len(b.succs) == 2 else None
+        if c is None or b.term.get("kind") not in ("ForStmt", "WhileStmt"):
+            continue
+        if c.get("k") == "bin" and c["op"] == "!=" and c["lhs"].get("k") == "var" and const_of(c["rhs"]) == 0:
+            hdr = (b.id, c["lhs"]["n"])
+    if hdr is None:
+        raise AnalysisBroken("sub0_matches: topic loop not found")
+    hb, var = hdr
+    steps = {(s.b, s.i) for s in f.assigns() if s.node["lhs"].get("k") == "var" and s.node["lhs"]["n"] == var and
+             "nni_list_next" in show(f.expand(s.node["rhs"]))}
+    if not steps:
+        raise AnalysisBroken("sub0_matches: loop step (nni_list_next) not found")
+    hits = set()
+    for s in f.sites():
+        if s.node.get("k") == "ret" and s.node.get("e") is not None:
+            v = const_of(f.expand(s.node["e"]))
+            if v is not None and v != 0:
+                hits.add((s.b, s.i))
+    if not hits:
+        ctx.fail(r, f, "no match exit", f.line, "sub0_matches never returns true from inside the scan")
+        return
+    r.ob(f, "match exit inside the scan")
+    body = (f.blocks[hb].succs[0], 0)
+    after = f.blocks[hb].succs[1]
+    seen = f.reach(body, blocked=lambda b, i, e: (b, i) in steps or (b, i) in hits or b == hb)
+    early = [(b, i) for (b, i) in seen if (b, i) == (f.exit, 0) or (after is not None and (b, i) == (after, 0))]
+    if early:
+        path = f.find_path(body, lambda b, i: (b, i) == early[0], blocked=lambda b, i, e: (b, i) in steps or (b, i) in hits or b == hb)
+        ctx.fail(r, f, "scan abandoned on a non-matching topic", f.line_of(hb, 0),
+                 "a path through the body of the topic loop leaves the loop without a match and without moving to the next "
+                 "topic: subscriptions that come later in the list are never tried, and a message they prefix is not delivered",
+                 f.path_lines(path))
+    else:
+        r.ob(f, "a non-matching topic always leads to the next topic")
+
+
 def run(ctx):
     ctx.guard(rule_r1)
     ctx.guard(rule_r2)
     ctx.guard(rule_r3)
     ctx.guard(rule_r4)
+    ctx.guard(rule_r5)
